@@ -50,8 +50,14 @@ def hk_trace_prepare(a, b, ta, tb, sy):
 
     got, rec = hkspy.observe_eq(a, b)
     order = [sy(c) for c in a.input_symbols]
-    ties = [[el(x), el(y)] for x, y in rec.first_wins]
-    calls = [[el(x), el(y)] for x, y in rec.calls]
+    try:
+        ties = [[el(x), el(y)] for x, y in rec.first_wins]
+        calls = [[el(x), el(y)] for x, y in rec.calls]
+    except (KeyError, TypeError, ValueError, IndexError) as e:
+        # the loop handled something that is not a state (set) of the operand it is tagged with: there is no schedule
+        # to run the mirror model under; reported as a difference of the run (the answers are judged on their own)
+        what = f"union-find was called on an element that does not belong to its operand ({type(e).__name__}: {e}); calls {rec.calls!r:.300}"
+        return None, (lambda ctx, answer, eq_outcome: [what])
 
     def judge(ctx, answer, eq_outcome):
         m_res, m_log = answer
@@ -87,7 +93,8 @@ def check_pair(ctx, adef, bdef, tag):
     ctx.tally("hk_mirror_compared")
     # the run of the loop itself: the union calls seen by a spy on networkx's UnionFind against the mirror model
     # driven by the schedule the implementation actually used (symbol iteration order, tie-breaks)
-    trace_problems = trace_judge(ctx, trace_ans[0], got[0]) if trace_item else []
+    trace_problems = (trace_judge(ctx, trace_ans[0], got[0]) if trace_item else
+                      trace_judge(ctx, None, got[0]) if trace_judge else [])
     for name, g, m in zip(NAMES, got, ans):
         m = enc.dec_res(m)
         want = ("ok", m[1] == 1) if m[0] == "ok" else ("err", m[1])
